@@ -46,7 +46,7 @@ func c16Exec(w *rnsWorld, s c16Step) c16Out {
 	key, okKey := canonKey(strings.ReplaceAll(s.Name, " ", ""))
 	before := w.names()
 	prev, found := before[key]
-	msg := rnstypes.NewMsgRegisterName(acc.Bech, s.Name, s.Years, "{}", false)
+	msg := newMsgRegisterName(acc.Bech, s.Name, s.Years, "{}", false)
 	balB := w.f.Snapshot()
 	supB := w.f.Supply("ujkl")
 	res := w.f.Exec(msg)
@@ -293,7 +293,7 @@ func TestC16(t *testing.T) {
 					if n, found := w.names()[key]; found {
 						for k := 0; k < 3; k++ {
 							if chain.Acc(k).Bech == n.Value {
-								r := w.f.Exec(rnstypes.NewMsgList(n.Value, key, sdk.NewInt64Coin("ujkl", rapid.Int64Range(1, 1_000_000_000).Draw(rt, "askingPrice"))))
+								r := w.f.Exec(newMsgList(n.Value, key, sdk.NewInt64Coin("ujkl", rapid.Int64Range(1, 1_000_000_000).Draw(rt, "askingPrice"))))
 								w.logf("list %s by acc%d -> %s", key, k, r)
 								if r.OK() {
 									rec.Count("ok:list")
@@ -312,7 +312,7 @@ func TestC16(t *testing.T) {
 						other := chain.Acc((rapid.IntRange(0, 2).Draw(rt, "recordHolder")))
 						own := fmt.Sprintf("holder%d.%s", other.Index, key[len(key)-3:])
 						if _, has := w.names()[own]; !has {
-							w.f.Exec(rnstypes.NewMsgRegisterName(other.Bech, own, 1, "{}", false))
+							w.f.Exec(newMsgRegisterName(other.Bech, own, 1, "{}", false))
 						}
 						label := key[:len(key)-4]
 						before := w.names()
